@@ -390,6 +390,9 @@ func vRSAKeyValid(name string) *rsa.PrivateKey {
 }
 
 // vRand: the entropy source handed to signers.
+// vEnvFailed: whether a primitive of the environment failed (only the solver side injects such failures)
+func vEnvFailed() bool { return false }
+
 func vRand() io.Reader { return cryptorand.Reader }
 
 // vYieldRand: entropy source that lets other goroutines run first (a scheduling point inside the primitive)
